@@ -3,7 +3,10 @@
   sensitivity  every seeded change kept under /verif/seeded that names this property (or is cross-listed in meta.json
                "also_breaks") and every AST-computed mutation operator for this property (fv/mutops.py) is applied to a scratch
                copy; the quick check must exit 1 (VIOLATION) there
-  silence      every behaviour-preserving twin under /verif/twins is applied to a scratch copy; the quick check must exit 0
+  silence      every behaviour-preserving twin under /verif/twins is applied to a scratch copy; the quick check must exit 0; so is every
+               benign syntactic variant (fv/benign.py: renamed locals, swapped if-arms, hoisted temporaries, flipped comparisons, keyword /
+               positional argument passing, De Morgan, ...) of every Python file this property's check reads -- computed from the CURRENT
+               sources, one function or site at a time
 A patch that no longer applies to the current tree is reported as skipped (the tree changed), not as a failure.
 """
 from __future__ import annotations
@@ -16,6 +19,7 @@ import shutil
 import subprocess
 import sys
 import tempfile
+import threading
 
 from . import core
 
@@ -65,6 +69,46 @@ def one_mutop(prop, repo, op):
         shutil.rmtree(td, ignore_errors=True)
 
 
+_tls = threading.local()
+_ALL_SCRATCH = []
+
+
+def one_benign(prop, repo, rel, q, desc, new_src, orig_src):
+    """benign variants reuse one scratch copy per worker thread (the file is rewritten and restored)"""
+    if getattr(_tls, "repo", None) != repo:
+        _tls.td = scratch(repo)
+        _tls.repo = repo
+        _ALL_SCRATCH.append(_tls.td)
+    path = os.path.join(_tls.td, "repo", rel)
+    open(path, "w").write(new_src)
+    try:
+        rc, msg = run_check(prop, _tls.td + "/repo")
+    finally:
+        open(path, "w").write(orig_src)
+    return dict(case=f"benign:{rel}:{q}: {desc}", expect="holds", rc=rc, result={0: "holds", 1: "violation", 2: "analysis-error"}.get(rc, str(rc)), detail=msg)
+
+
+def benign_cases(prop, repo):
+    from . import benign
+    out = []
+    for rel in benign.files_for(prop):
+        path = os.path.join(repo, rel)
+        if not os.path.exists(path):
+            continue
+        src = open(path).read()
+        try:
+            vs = list(benign.variants(src, set(benign.KINDS), []))
+        except SyntaxError:
+            continue
+        for q, desc, new in vs:
+            try:
+                compile(new, rel, "exec")
+            except SyntaxError:
+                continue
+            out.append((rel, q, desc, new, src))
+    return out
+
+
 def cases_for(prop):
     seeded = []
     for d in sorted(glob.glob(os.path.join(core.VERIF, "seeded", "*"))):
@@ -98,7 +142,15 @@ def run(ctx: core.Ctx):
             jobs.append(ex.submit(one_patch, prop, ctx.repo, "twin:" + name, patch, "holds"))
         for op in ops:
             jobs.append(ex.submit(one_mutop, prop, ctx.repo, op))
-        results = [j.result() for j in jobs]
+        if os.environ.get("FV_BENIGN", "1") != "0":
+            for rel, q, desc, new, src in benign_cases(prop, ctx.repo):
+                jobs.append(ex.submit(one_benign, prop, ctx.repo, rel, q, desc, new, src))
+        try:
+            results = [j.result() for j in jobs]
+        finally:
+            for td in _ALL_SCRATCH:
+                shutil.rmtree(td, ignore_errors=True)
+            del _ALL_SCRATCH[:]
     problems = []
     for r in results:
         if r["result"] in ("skipped", "not-applicable"):
